@@ -19,8 +19,9 @@ import z3
 
 from . import smt, source
 from .smt import Obligation, lift, fresh, fresh_int, fresh_bool, fresh_real
+from .values import OpaqueSeq
 from .values import (Sym, SInt, SBool, SFloat, SStr, Opaque, Model, BoundModelMethod, SList, SOpaqueObj,
-                     Unsupported, is_concrete, pytype_tag, is_numlike, is_intlike, is_floatlike,
+                     Unsupported, HardUnsupported, is_concrete, pytype_tag, is_numlike, is_intlike, is_floatlike,
                      to_real_parts, to_int_term, to_bool_term, str_term, ite_val, raw, cnt, cnt_def,
                      real_floor, real_ceil, real_round_half_even)
 
@@ -161,8 +162,12 @@ class Ctx:
         self.used_lemmas = set()     # names of proved lemmas whose instances were used as hypotheses
         self.cnt_mono = False        # add cnt_mono instances over pairs of instantiation terms
         self.used_expr_contracts = set()
+        self.used_frame_contracts = set()
+        self.skel_absorbed = 0       # expressions absorbed as opaque values in skeleton mode
         self.underdetermined = False  # a library / callee contract returned a value it only constrains (cross-check: consistency)
         self.definitions = []        # definitional equations of opaque symbols applied on this path (for the CPython cross-check)
+        self._hyps_cache = {}
+        self.pair_terms = []         # explicit witness pairs for binary schemas (empty: all pairs of instantiation terms)
         self.term_maps = []          # unary z3 functions applied to the instantiation terms (e.g. a sort permutation)
         self.len_vars = []           # length variables of list / table inputs (for small counter-models)
         self.ghost = {}              # ghost values exposed to the contract (e.g. selected rows of a mask filter)
@@ -199,6 +204,10 @@ class Ctx:
         if not any(arr.eq(a) for a in self.cnt_arrays):
             self.cnt_arrays.append(arr)
 
+    def hint_pair(self, t, u):
+        self.pair_terms.append((lift(t), lift(u)))
+        self.hint(t, u)
+
     def hint(self, *terms):
         for t in terms:
             t = lift(t)
@@ -215,6 +224,18 @@ class Ctx:
             pc_, schemas_, hints_, cnts_ = self.pc[:snap[0]], self.schemas[:snap[1]], self.hint_terms[:snap[2]], self.cnt_arrays[:snap[3]]
         else:
             pc_, schemas_, hints_, cnts_ = self.pc, self.schemas, self.hint_terms, self.cnt_arrays
+        # the instance part depends only on (schemas, hint terms, cnt arrays, term maps, pairs, extra terms): cache it
+        ckey = (len(schemas_), len(hints_), len(cnts_), len(self.term_maps), len(self.pair_terms), self.cnt_mono,
+                tuple(lift(t).get_id() for t in extra_terms))
+        hit = self._hyps_cache.get(ckey)
+        if hit is not None:
+            return list(pc_) + hit[1]
+        inst = self._instances(extra_terms, schemas_, hints_, cnts_)
+        self._hyps_cache[ckey] = ([lift(t) for t in extra_terms], inst)       # extra terms kept alive: their ids stay valid
+        return list(pc_) + inst
+
+    def _instances(self, extra_terms, schemas_, hints_, cnts_):
+        pc_ = []
         terms = list(hints_)
         for t in extra_terms:
             t = lift(t)
@@ -235,6 +256,15 @@ class Ctx:
         hy = list(pc_)
         for sch in schemas_:
             if sch.arity == 2:
+                if self.pair_terms:
+                    # explicit pair mode: binary schemas are instantiated at the registered witness pairs (both orders) and at
+                    # all pairs of the obligation's own extra terms (its skolem constants)
+                    ext = [lift(t) for t in extra_terms]
+                    pairs = list(self.pair_terms) + [(a, b) for a in ext for b in ext]
+                    for (t, u) in pairs:
+                        hy.append(sch.inst(t, u))
+                        hy.append(sch.inst(u, t))
+                    continue
                 for t in base:
                     for u in base:
                         hy.append(sch.inst(t, u))
@@ -414,6 +444,7 @@ class Interp:
         self.reg = registry      # contracts registry
         self.lib = lib           # external models: dotted name -> callable(ctx, interp, args, kwargs)
         self.dropped = Dropped()
+        self.skeleton = False
         from .lib import EXT_VALUES
         self.ext_values = EXT_VALUES
         self.interpreted = set()  # qualnames whose bodies were interpreted on this path
@@ -430,6 +461,8 @@ class Interp:
                 raise Unsupported(f'decorator {d} on {fi.qualname}')
         frame = Frame(fi, dict(args))
         frame.contract = contract if contract is not None else self.reg.get(fi.qualname)
+        if not self.ctx.fn_stack and frame.contract is not None and getattr(frame.contract, 'skeleton', False):
+            self.skeleton = True
         self.ctx.fn_stack.append(fi.qualname)
         try:
             body = fi.node.body
@@ -582,6 +615,8 @@ class Interp:
             raise Unsupported(f'assignment target {type(target).__name__}')
 
     def unpack(self, v, n):
+        if self.skeleton and isinstance(v, Opaque):
+            return [Opaque('skel') for _ in range(n)]
         if isinstance(v, (tuple, list)):
             if len(v) != n:
                 raise PyRaise('ValueError', 'unpack')
@@ -589,6 +624,8 @@ class Interp:
         raise Unsupported(f'unpack of {v!r}')
 
     def setitem(self, obj, idx, v):
+        if self.skeleton and isinstance(obj, Opaque):
+            return None          # a local object the executor does not track (fresh table / array): no effect on tracked state
         if isinstance(obj, Model):
             return obj.sym_setitem(self.ctx, idx, v)
         if isinstance(obj, dict):
@@ -606,6 +643,18 @@ class Interp:
         raise Unsupported(f'setitem on {obj!r}')
 
     def stmt_If(self, s, fr):
+        if self.skeleton:
+            t = self.eval(s.test, fr)
+            if isinstance(t, Opaque) and _local_only(s.body) and _local_only(s.orelse):
+                # opaque condition guarding nothing but assignments to local names: no fork, the names become opaque
+                for n in _modified_names(s.body) | _modified_names(s.orelse):
+                    fr.env[n] = Opaque('skel')
+                return
+            if self.truth(t):
+                self.exec_block(s.body, fr)
+            else:
+                self.exec_block(s.orelse, fr)
+            return
         if self.truth(self.eval(s.test, fr)):
             self.exec_block(s.body, fr)
         else:
@@ -646,6 +695,18 @@ class Interp:
         k = fr.loop_ordinal
         fr.loop_ordinal += 1
         it = self.eval(s.iter, fr)
+        if self.skeleton and (isinstance(it, Opaque) or (isinstance(it, Model) and not hasattr(it, 'sym_iter_ok'))):
+            # opaque sequence: the body runs zero times or (abstractly) once -- ghost versions only record *whether* something
+            # was written, and a raise in a later iteration looks like one in the first
+            ne = getattr(it, 'nonempty', None)
+            which_ = 'once' if ne is True else 'zero' if ne is False else self.ctx.choose(f'loop{k}', ['once', 'zero'])
+            if which_ == 'once':
+                self.assign_opaque(s.target, fr)
+                try:
+                    self.exec_block(s.body, fr)
+                except (BreakSig, ContinueSig):
+                    pass
+            return
         seq = self.as_iterable(it)
         if seq[0] == 'concrete':
             for x in seq[1]:
@@ -665,7 +726,25 @@ class Interp:
             raise Unsupported('while/else')
         k = fr.loop_ordinal
         fr.loop_ordinal += 1
+        if self.skeleton:
+            c = self.eval(s.test, fr)
+            if isinstance(c, Opaque):
+                if self.ctx.choose(f'loop{k}', ['once', 'zero']) == 'once':
+                    try:
+                        self.exec_block(s.body, fr)
+                    except (BreakSig, ContinueSig):
+                        pass
+                return
         self.cut_loop(s, fr, k)
+
+    def assign_opaque(self, target, fr):
+        if isinstance(target, ast.Name):
+            fr.env[target.id] = Opaque('skel')
+        elif isinstance(target, (ast.Tuple, ast.List)):
+            for t in target.elts:
+                self.assign_opaque(t, fr)
+        else:
+            raise HardUnsupported('opaque assignment to a non-name target')
 
     def cut_loop(self, s, fr, k, n=None, getter=None):
         """invariant-based cut of `for x in <symbolic seq>` (n, getter given) or `while`."""
@@ -771,8 +850,20 @@ class Interp:
     def eval(self, e, fr: Frame):
         m = getattr(self, 'expr_' + type(e).__name__, None)
         if m is None:
+            if self.skeleton:
+                return Opaque('skel')
             raise Unsupported(f'expression {type(e).__name__} at {fr.fi.qualname}:{getattr(e, "lineno", "?")}')
-        return m(e, fr)
+        if not self.skeleton:
+            return m(e, fr)
+        # skeleton mode (label F/typestate): a *pure* expression the executor has no model for evaluates to an opaque
+        # value; constructs that may hide an effect on tracked state raise HardUnsupported and are never absorbed
+        try:
+            return m(e, fr)
+        except HardUnsupported:
+            raise
+        except Unsupported as u:
+            self.ctx.skel_absorbed += 1
+            return Opaque('skel')
 
     def expr_Constant(self, e, fr):
         return e.value
@@ -808,6 +899,14 @@ class Interp:
         raise PyRaise('NameError', n)
 
     def module_constant(self, mod, n):
+        mc = getattr(self.reg, 'module_constants', {})
+        key = f'{mod.name}.{n}'
+        if key in mc:
+            src_expected, value = mc[key]
+            # a modelled module constant is pinned by its source text
+            if ast.dump(mod.assigns[n]) != ast.dump(ast.parse(src_expected, mode='eval').body):
+                raise HardUnsupported(f'module constant {key} changed: its model no longer applies')
+            return value() if callable(value) else value
         try:
             return ast.literal_eval(mod.assigns[n])
         except Exception:
@@ -835,6 +934,8 @@ class Interp:
         return self.getattr(obj, e.attr, fr)
 
     def getattr(self, obj, name, fr=None):
+        if self.skeleton and isinstance(obj, Opaque):
+            return Opaque('skel')
         if isinstance(obj, ExtRef):
             d = obj.dotted + '.' + name
             if d in self.ext_values:
@@ -864,6 +965,8 @@ class Interp:
         return self.eval(sl, fr)
 
     def getitem(self, obj, idx):
+        if self.skeleton and isinstance(obj, Opaque):
+            return Opaque('skel')
         if isinstance(obj, Model):
             return obj.sym_getitem(self.ctx, idx)
         if isinstance(obj, dict):
@@ -914,6 +1017,13 @@ class Interp:
         return out
 
     def expr_JoinedStr(self, e, fr):
+        r = self._joinedstr(e, fr)
+        if isinstance(r, Opaque) and r.what == 'fstring':
+            first = next((p.value for p in e.values if isinstance(p, ast.Constant)), '')
+            return Opaque('fstring:' + str(first)[:40])
+        return r
+
+    def _joinedstr(self, e, fr):
         parts = []
         for p in e.values:
             if isinstance(p, ast.Constant):
@@ -1102,6 +1212,8 @@ class Interp:
                 return z3.Length(v.t) > 0
             return to_bool_term(v)
         if isinstance(v, Opaque):
+            if self.skeleton:
+                return self.ctx.choose('opaque-condition', [True, False])
             raise Unsupported('truth of opaque value')
         if isinstance(v, (int, float, str, list, tuple, dict)):
             return bool(v)
@@ -1181,6 +1293,8 @@ class Interp:
                 return r
             t = self.truth_term(r)
             return (not t) if isinstance(t, bool) else SBool(z3.Not(t))
+        if self.skeleton and (isinstance(a, Opaque) or isinstance(b, Opaque)):
+            return Opaque('skel')
         if isinstance(a, Model):
             return a.sym_compare(self.ctx, op, b, False)
         if isinstance(b, Model):
@@ -1249,6 +1363,8 @@ class Interp:
             if k.arg is None:
                 d = self.eval(k.value, fr)
                 if not isinstance(d, dict):
+                    if self.skeleton:
+                        continue          # opaque keyword dictionary: the keywords are unknown, the call itself is still made
                     raise Unsupported('** of non-dict')
                 kwargs.update(d)
             else:
@@ -1256,6 +1372,15 @@ class Interp:
         return self.call(fn, args, kwargs, fr, e)
 
     def call(self, fn, args, kwargs, fr=None, node=None):
+        if self.skeleton and isinstance(fn, Opaque):
+            return Opaque('skel')          # method of an untracked local object: pure by A-LIBPURE
+        if self.skeleton and isinstance(fn, ExtRef) and self.lib.get(fn.dotted) is None:
+            from .frames import EXT, PURE_PREFIXES
+            if fn.dotted in EXT and (EXT[fn.dotted].get('writes') or EXT[fn.dotted].get('mut_args')):
+                raise HardUnsupported(f'external call {fn.dotted} has effects')
+            if fn.dotted.startswith(PURE_PREFIXES) or fn.dotted in EXT:
+                return Opaque('skel')
+            raise HardUnsupported(f'external call {fn.dotted}: effect unknown')
         if isinstance(fn, BoundModelMethod):
             return fn(self.ctx, args, kwargs)
         if isinstance(fn, PyMethod):
@@ -1289,6 +1414,18 @@ class Interp:
         if con is not None and con.inline:
             env = self.bind_args(fi, args, kwargs)
             return self.run_function(fi, env, con)
+        if con is None and self.skeleton:
+            from contracts.frames_spec import analysis
+            an, _ = analysis()
+            s_ = an.summaries.get(ref.qualname)
+            harmless = {'ghost:LOG', 'ghost:WARN'}
+            if s_ is not None and not s_.unknown and all(w in harmless or (w.startswith('param:') and not w.startswith('param:self'))
+                                                         for w in s_.writes):
+                # frame contract of the callee (proved by the frame back end): it writes nothing of the chunk -> opaque result.
+                # A refusal by such a helper needs parameters outside their documented meaning (assumption A-PRMS).
+                self.ctx.used_frame_contracts.add(ref.qualname)
+                return Opaque('skel')
+            raise HardUnsupported(f'call of {ref.qualname}: callee writes tracked state and has no typestate contract')
         if con is None:
             raise Unsupported(f'call of {ref.qualname}: callee has no contract')
         # modular: callee replaced by its contract
@@ -1357,6 +1494,8 @@ class Interp:
             if all(isinstance(a, int) for a in args):
                 return range(*args)
             return SRange(self, args)
+        if name in ('enumerate', 'list', 'reversed', 'sorted') and args and isinstance(args[0], OpaqueSeq):
+            return OpaqueSeq(args[0].nonempty)
         if name == 'enumerate':
             (x,) = args
             if isinstance(x, (list, tuple)):
@@ -1468,6 +1607,22 @@ def _as_load(node):
         if hasattr(sub, 'ctx'):
             sub.ctx = ast.Load()
     return n
+
+
+def _local_only(stmts) -> bool:
+    """statements that only (aug-)assign local names from call-free expressions (or pass)"""
+    for st in stmts:
+        if isinstance(st, ast.Pass):
+            continue
+        if isinstance(st, (ast.Assign, ast.AugAssign)):
+            tg = st.targets if isinstance(st, ast.Assign) else [st.target]
+            if not all(isinstance(t, ast.Name) for t in tg):
+                return False
+            if any(isinstance(n, (ast.Call, ast.Yield, ast.Await, ast.NamedExpr)) for n in ast.walk(st.value)):
+                return False
+            continue
+        return False
+    return True
 
 
 def _modified_names(body) -> set:
